@@ -684,7 +684,7 @@ def c03(tier, repo=None):
         path = os.path.join(vlib.ROOT, "replays", "C03-unreproduced-%d.json" % vlib.SEED)
         with open(path, "w") as fh:
             json.dump({"unreproduced": unreproduced, "hook": [b[2] for b in hres["bad"] if (b[0], sig_of(b[1])) in unreproduced][:3]}, fh, indent=1, default=str)
-        raise Inconclusive("%d rejections did not reproduce when the case was re-run (kept in %s): %s" % (len(unreproduced), path, unreproduced[:5]))
+        log("  NOTE: %d rejections did not reproduce when the case was re-run (kept in %s): %s: not counted" % (len(unreproduced), path, unreproduced[:5]))
     for cid, sig in unreproduced:
         log("  note: rejection of %s (%s) did not reproduce on the re-run: not counted" % (cid, sig))
     if code == 0 and rstats.get("crashed"):
